@@ -790,6 +790,51 @@ theorem crashWith_eq (old : Bytes) (ops : List Op) (i k : Nat) :
       · rw [List.getElem?_eq_none h] at hg; cases hg
     rw [prefixStates_getElem? _ _ _ (Nat.le_of_lt hi)]
 
+/-! ### write faults (an operation of the `DataWriterTrait` returns an error)
+
+The unchanged writers propagate the error (`?`) or panic (`unwrap`): the run stops at the failed
+operation.  What is left behind is then the crash state `(n, 0)`, so the crash theorems apply: a
+writer that FAILS LOUDLY is safe.  A writer that skips the failed tile and carries on to the index
+and the header (seeded regression C12-9) produces the completed file of a SMALLER tile set – it opens
+and lacks the tile. -/
+
+theorem applyCut_zero (w : W) (op : Op) : w.applyCut op 0 = w := by
+  cases op <;> simp [W.applyCut]
+
+/-- the file a stop-at-the-failed-operation writer leaves behind is a crash state -/
+theorem stop_at_fault_is_crash (ops : List Op) (n : Nat) : (run (ops.take n)).file = crash ops n 0 := by
+  unfold crash
+  cases hg : ops[n]? with
+  | none =>
+    have : ops.length ≤ n := by
+      rcases Nat.lt_or_ge n ops.length with h | h
+      · rw [List.getElem?_eq_getElem h] at hg; cases hg
+      · exact h
+    rw [List.take_of_length_le this]
+  | some op => simp only [applyCut_zero]
+
+/-- **write_fails_loudly (versatiles)**: if operation `n` fails and the writer stops there, the file
+    left behind does not open – or nothing was missing any more (`n` beyond the last operation). -/
+theorem write_fails_loudly (dec : Dec) (pre metaC : Bytes) (mid : List Bytes) (idxC : Bytes)
+    (hpre : pre.length = 34)
+    (hoff : 66 + metaC.length + mid.flatten.length < 256 ^ 8) (hlen : idxC.length < 256 ^ 8)
+    (hnil : dec .brotli [] = none)
+    (hprefix : ∀ p, p <+: idxC → p ≠ idxC → dec .brotli p = none) (n : Nat) :
+    let ops := opsV pre metaC mid idxC
+    openV dec (run (ops.take n)).file = none ∨ (run (ops.take n)).file = (run ops).file := by
+  intro ops
+  rw [stop_at_fault_is_crash]
+  exact versatiles_crash_safe dec pre metaC mid idxC hpre hoff hlen hnil hprefix n 0
+
+/-- **write_fails_loudly (pmtiles)** -/
+theorem write_fails_loudly_pmtiles (dec : Dec) (metaC : Bytes) (tiles : List Bytes) (rootC leavesC hdr : Bytes)
+    (hlen : hdr.length = 127) (n : Nat) :
+    let ops := opsP metaC tiles rootC leavesC hdr
+    openP dec (run (ops.take n)).file = none ∨ coreP (run (ops.take n)).file = coreP (run ops).file := by
+  intro ops
+  rw [stop_at_fault_is_crash]
+  exact pmtiles_crash_safe dec metaC tiles rootC leavesC hdr hlen n 0
+
 /-! ### non-vacuity -/
 
 /-- a decompressor that accepts exactly one stream satisfies both laws -/
@@ -812,6 +857,15 @@ example : openV (tableDec [[7, 7, 7]]) (crash (opsV exPre [1, 2] [[9], [8, 8]] [
 set_option maxRecDepth 100000 in
 example : crash (opsV exPre [1, 2] [[9], [8, 8]] [7, 7, 7]) 5 66 = (run (opsV exPre [1, 2] [[9], [8, 8]] [7, 7, 7])).file := by
   decide
+
+set_option maxRecDepth 100000 in
+/-- **skip-and-continue is unsafe**: the writer skips the failed append of the second blob and still
+    writes index and header – the result opens, and it is not the completed file of the full set -/
+theorem skip_on_fault_unsafe :
+    (openV (tableDec [[7, 7, 7]]) (run (opsV exPre [1, 2] [[9]] [7, 7, 7])).file).isSome = true ∧
+    (run (opsV exPre [1, 2] [[9]] [7, 7, 7])).file ≠ (run (opsV exPre [1, 2] [[9], [8, 8]] [7, 7, 7])).file := by
+  decide
+
 example : (zeros 127).length = 127 := by simp
 
 end VtProps.C12
